@@ -292,6 +292,7 @@ impl Felt {
     /// lambdaworks `/` unwraps `inv()`: a zero divisor PANICS, hence the precondition.
     #[verifier::external_body]
     pub fn field_div(&self, rhs: &NonZeroFelt) -> (r: Felt)
+//@ifnotfeature assume_fs_nonzero
         requires rhs@ != 0
         ensures r@ == fdiv(self@, rhs@)
     { unimplemented!() }
